@@ -90,7 +90,7 @@ theorem register_spec {c c' : Cat} {r : RegReq} (h : c.register r = some c') :
     (∀ k, (∀ d, (k, d) ∉ r.chks) → c'.chks.get? k = c.chks.get? k) ∧
     (∀ k, (∃ d, (k, d) ∈ r.chks) → ∃ d rc, (k, d) ∈ r.chks ∧ c'.chks.get? k = some rc ∧ rc.core = d.core ∧
         (d.sid ≠ "" → c'.svcs.get? d.sid ≠ none)) ∧
-    (c'.node = some r.nodeVal ∨ (c'.node = c.node ∧ c.node ≠ none ∧ r.skipNode = true)) := by
+    (c'.node = some r.nodeVal ∨ (c'.node = c.node ∧ c.node ≠ none)) := by
   unfold Cat.register at h
   simp only at h
   obtain ⟨hf1, hf2⟩ := regNode_frame c r.nodeVal r.skipNode
